@@ -20,7 +20,242 @@ func init() {
 	})
 }
 
+// runC01EmptyUnenvelopedMessage: C01.7 (defect D59).  The body of a client whose protocol has no
+// envelopes IS the one message of the request - also when it is empty (the all-defaults message).
+// The message reader reports 'zero bytes' as io.EOF; where the re-encoding reader receives that
+// for the first message, the only paths on which it may give up (store its error cell) are those
+// that know the client is enveloped (for which EOF really is the end of the stream), that this is
+// not the first message, or that the error is not io.EOF.  Giving up on any other path drops the
+// client's message: the backend sees a request without any message.
+func runC01EmptyUnenvelopedMessage(c *Ctx) {
+	p := c.P
+	c.Rule("C01.7", "an empty body from a client without envelopes is one (empty) message on the re-encoding path, not the end of the stream", 1)
+	rrm := p.MustFunc("(*operation).readRequestMessage")
+	cliEnvF := p.MustField("operation", "clientEnveloper")
+	trT := types.NewPointer(p.MustNamed("transformingReader"))
+	read := p.MethodOf(trT, "Read")
+	errF := p.MustField("transformingReader", "err")
+	firstF := p.MustField("transformingReader", "consumedFirst")
+	if read == nil {
+		fatalf("anchor=transformingReader.Read not found")
+	}
+	n := 0
+	for _, fn := range p.Family(read) {
+		for _, call := range Calls(fn) {
+			if call.Common().StaticCallee() != rrm {
+				continue
+			}
+			n++
+			isGiveUp := func(in ssa.Instruction) bool {
+				st, ok := in.(*ssa.Store)
+				if !ok {
+					return false
+				}
+				fa, ok := st.Addr.(*ssa.FieldAddr)
+				return ok && FieldOfAddr(fa) == errF && !IsNilConst(st.Val)
+			}
+			isEnd := func(in ssa.Instruction) bool {
+				if isGiveUp(in) || IsReturn(in) {
+					return true
+				}
+				// the loop's next round / the success continuation: stop at the next call of the reader or of markReady
+				if ci, ok := in.(ssa.CallInstruction); ok && in != ssa.Instruction(call) {
+					if sc := ci.Common().StaticCallee(); sc != nil && (N(sc) == "markReady" || N(sc) == "prepareMessage") {
+						return true
+					}
+				}
+				return false
+			}
+			// start right after the call, within its block: enumerate from the block, ignoring instructions up to the call
+			started := false
+			endAfter := func(in ssa.Instruction) bool {
+				if in == ssa.Instruction(call) {
+					started = true
+					return false
+				}
+				if in.Block() == call.Block() && !started {
+					return false
+				}
+				return isEnd(in)
+			}
+			paths, ok := EnumPaths(call.Block(), nil, endAfter, 0)
+			if !ok {
+				c.Unknown("C01.7", FuncName(fn), "empty-body-is-a-message", call.Pos(), "too many paths")
+				continue
+			}
+			bad := 0
+			for _, cp := range paths {
+				if !isGiveUp(cp.End) {
+					continue
+				}
+				excused := false
+				for cond, truth := range cp.Truth {
+					// the error is nil?  then this is not the error edge at all
+					if b, isB := cond.(*ssa.BinOp); isB && IsNilConst(b.Y) {
+						if isErrorType(b.X.Type()) && (b.Op == token.NEQ && !truth || b.Op == token.EQL && truth) {
+							excused = true
+						}
+						// knows the client is enveloped
+						if LoadedField(b.X) == cliEnvF && (b.Op == token.EQL && !truth || b.Op == token.NEQ && truth) {
+							excused = true
+						}
+					}
+					if ic, isC := cond.(*ssa.Call); isC && IsCallTo(ic, "errors.Is") && !truth {
+						excused = true // not io.EOF
+					}
+					if LoadedField(cond) == firstF && truth {
+						excused = true // not the first message
+					}
+				}
+				if !excused {
+					bad++
+				}
+			}
+			c.Check(bad == 0, "C01.7", FuncName(fn), "empty-body-is-a-message", call.Pos(),
+				"the reader gives up after the message reader's error only on paths that know the client is enveloped, the message is not the first, or the error is not io.EOF",
+				itoa(bad)+" path(s) store the reader's error cell after the message reader reported io.EOF for the first message without knowing that the client's protocol has envelopes: for a client without envelopes the (empty) body is the one message of the request, and it is dropped - the backend sees a request with no message at all")
+		}
+	}
+	if n == 0 {
+		c.Bad("C01.7", FuncName(read), "empty-body-is-a-message", read.Pos(), "the re-encoding reader does not call the message reader: shape changed")
+	}
+}
+
+// runC01OneMessageTargets: C01.8 (defect D60).  A target whose protocol has no envelopes reads ONE
+// body; unless the method is client-streaming (where the REST mapping deliberately concatenates
+// chunks) that body is one message.  Both request readers strip the client's envelopes, so a
+// second message from an enveloped client would be glued to the first (for protobuf,
+// concatenation is a merge: the backend runs on a blend of both).  Hence: every path on which a
+// reader goes on to deliver a message knows that this is the first one, or that the target has
+// envelopes / the method takes a stream - by a direct test of serverEnveloper or through a
+// boolean module function that reads it.
+func runC01OneMessageTargets(c *Ctx) {
+	p := c.P
+	c.Rule("C01.8", "a request reader delivers a further message only where it knows the target can take more than one", 2)
+	srvEnvF := p.MustField("operation", "serverEnveloper")
+	readsSrvEnv := map[*ssa.Function]bool{}
+	for _, fn := range p.Funcs {
+		if !p.inScope(fn) || fn.Signature.Results().Len() != 1 || !isBoolType(fn.Signature.Results().At(0).Type()) {
+			continue
+		}
+		ForEachInstr(fn, func(in ssa.Instruction) {
+			if fa, ok := in.(*ssa.FieldAddr); ok && FieldOfAddr(fa) == srvEnvF {
+				readsSrvEnv[fn] = true
+			}
+		})
+	}
+	knowsMany := func(cp CFGPath, firstKnown func(cond ssa.Value, truth bool) bool) bool {
+		for cond, truth := range cp.Truth {
+			if firstKnown(cond, truth) {
+				return true
+			}
+			if b, ok := cond.(*ssa.BinOp); ok && IsNilConst(b.Y) && LoadedField(b.X) == srvEnvF {
+				if b.Op == token.EQL && !truth || b.Op == token.NEQ && truth {
+					return true
+				}
+			}
+			if call, ok := cond.(*ssa.Call); ok && !truth {
+				if sc := call.Call.StaticCallee(); sc != nil && readsSrvEnv[sc] {
+					return true
+				}
+			}
+		}
+		return false
+	}
+	check := func(fn *ssa.Function, from ssa.Instruction, isDeliver func(ssa.Instruction) bool, firstKnown func(ssa.Value, bool) bool, construct string) {
+		started := false
+		isEnd := func(in ssa.Instruction) bool {
+			if in == from {
+				started = true
+				return false
+			}
+			if in.Block() == from.Block() && !started {
+				return false
+			}
+			return isDeliver(in) || IsReturn(in)
+		}
+		paths, ok := EnumPaths(from.Block(), nil, isEnd, 0)
+		if !ok {
+			c.Unknown("C01.8", FuncName(fn), construct, from.Pos(), "too many paths")
+			return
+		}
+		bad, nDel := 0, 0
+		for _, cp := range paths {
+			if !isDeliver(cp.End) {
+				continue
+			}
+			nDel++
+			if !knowsMany(cp, firstKnown) {
+				bad++
+			}
+		}
+		c.Check(bad == 0 && nDel > 0, "C01.8", FuncName(fn), construct, from.Pos(),
+			"every path from here to the delivery of the message knows it is the first, or that the target takes more than one",
+			itoa(bad)+" path(s) go on to deliver this message without knowing that it is the first one or that the target can take more than one (serverEnveloper != nil / client-streaming): for a unary method towards a protocol without envelopes a second message is glued to the first in the one body the backend reads")
+	}
+	n := 0
+	// (a) the re-encoding reader: from the message reader's call to prepareMessage
+	rrm := p.MustFunc("(*operation).readRequestMessage")
+	trT := types.NewPointer(p.MustNamed("transformingReader"))
+	firstF := p.MustField("transformingReader", "consumedFirst")
+	if read := p.MethodOf(trT, "Read"); read != nil {
+		for _, fn := range p.Family(read) {
+			for _, call := range Calls(fn) {
+				if call.Common().StaticCallee() != rrm {
+					continue
+				}
+				n++
+				check(fn, call, func(in ssa.Instruction) bool {
+					ci, ok := in.(ssa.CallInstruction)
+					return ok && ci.Common().StaticCallee() != nil && N(ci.Common().StaticCallee()) == "prepareMessage"
+				}, func(cond ssa.Value, truth bool) bool {
+					if LoadedField(cond) == firstF && !truth {
+						return true
+					}
+					// the error edge is not a delivery of a further message
+					if b, ok := cond.(*ssa.BinOp); ok && IsNilConst(b.Y) && isErrorType(b.X.Type()) && (b.Op == token.NEQ && truth || b.Op == token.EQL && !truth) {
+						return true
+					}
+					return false
+				}, "further-message-needs-capable-target")
+			}
+		}
+	}
+	// (b) the re-framing reader: from the envelope decode to the installation of the payload source
+	erT := types.NewPointer(p.MustNamed("envelopingReader"))
+	curF := p.MustField("envelopingReader", "current")
+	if pn := p.MethodOf(erT, "prepareNext"); pn != nil {
+		for _, fn := range p.Family(pn) {
+			for _, call := range Calls(fn) {
+				cc := call.Common()
+				if !cc.IsInvoke() || N(cc.Method) != "decodeEnvelope" {
+					continue
+				}
+				n++
+				check(fn, call, func(in ssa.Instruction) bool {
+					st, ok := in.(*ssa.Store)
+					if !ok {
+						return false
+					}
+					fa, ok := st.Addr.(*ssa.FieldAddr)
+					return ok && FieldOfAddr(fa) == curF && !IsNilConst(st.Val)
+				}, func(cond ssa.Value, truth bool) bool {
+					if b, ok := cond.(*ssa.BinOp); ok && IsNilConst(b.Y) && LoadedField(b.X) == curF {
+						return b.Op == token.EQL && truth || b.Op == token.NEQ && !truth
+					}
+					return false
+				}, "further-message-needs-capable-target")
+			}
+		}
+	}
+	if n < 2 {
+		c.Bad("C01.8", "request readers", "further-message-needs-capable-target", token.NoPos, "fewer than two message acquisition sites found in the request readers ("+itoa(n)+"): shape changed")
+	}
+}
+
 func runC01(c *Ctx) {
+	defer runC01EmptyUnenvelopedMessage(c)
+	defer runC01OneMessageTargets(c)
 	p := c.P
 	// clauses this property shares with others (see DESIGN.md section 6a)
 	defer c.ImportRules("C08", "C08.1", "C08.3", "C08.4")
